@@ -75,6 +75,7 @@ type fakeLog struct {
 	shortReads  int
 	errs        map[int]int
 	sthErrs     int
+	sthPollErrs map[int]int // error kinds met by get-sth calls after the first (the polls of continuous mode)
 	inflight    int
 	maxInflight int
 	requests    int
@@ -82,7 +83,7 @@ type fakeLog struct {
 }
 
 func newFakeLog(c *Case, log []truth, abort func(sig, msg string)) *fakeLog {
-	return &fakeLog{c: c, log: log, start: time.Now(), abort: abort, calls: map[int64]int{}, firstSTH: -1, errs: map[int]int{}}
+	return &fakeLog{c: c, log: log, start: time.Now(), abort: abort, calls: map[int64]int{}, firstSTH: -1, errs: map[int]int{}, sthPollErrs: map[int]int{}}
 }
 
 func (f *fakeLog) BaseURI() string { return fakeURI }
@@ -112,6 +113,9 @@ func (f *fakeLog) GetSTH(ctx context.Context) (*ct.SignedTreeHead, error) {
 	if n < len(f.c.STHErrs) && f.c.STHErrs[n] != errNone {
 		f.mu.Lock()
 		f.sthErrs++
+		if n > 0 {
+			f.sthPollErrs[f.c.STHErrs[n]]++
+		}
 		f.mu.Unlock()
 		return nil, mkErr(f.c.STHErrs[n])
 	}
